@@ -77,9 +77,27 @@ def run(repo, rep, tier):
                    "" if guarded else f"{why}: a cell spelling nan, inf or 1e400 becomes a non-finite number and the conversion dies in Table.write with a ValueError traceback",
                    key=f"C20.R1@transform:{U(sink)[:40]}")
     # coercion failures keep the text
-    sup = [w for w in body_walk(td) if isinstance(w, ast.With) and any("suppress(ValueError)" in U(i.context_expr) for i in w.items)]
-    ok = bool(sup) and all(any(fl is x for x in ast.walk(sup[0])) for fl in floats)
-    rep.ob("C20.R1", sup[0] if sup else td, "text that is not a number stays text (ValueError suppressed around the coercion only)", ok, "", key="C20.R1@suppress")
+    def absorbed(fl):
+        """The ValueError of float() ends inside this function without a store: a suppress(ValueError) block, or the body
+        of a try whose ValueError handler only skips (pass / continue / nothing stored)."""
+        prev = fl
+        for p in _anc(fl):
+            if isinstance(p, ast.With) and any("suppress(ValueError)" in U(i.context_expr) for i in p.items) and any(prev is b for b in p.body):
+                return p
+            if isinstance(p, ast.Try) and any(prev is b for b in p.body):
+                for h in p.handlers:
+                    names = [U(t) for t in (h.type.elts if isinstance(h.type, ast.Tuple) else [h.type])] if h.type is not None else ["BaseException"]
+                    if any(x in ("ValueError", "Exception", "BaseException") for x in names):
+                        quiet = not any(isinstance(x, (ast.Raise, ast.Return)) or (isinstance(x, ast.Assign) and isinstance(x.targets[0], ast.Subscript)) for b in h.body for x in ast.walk(b))
+                        return p if quiet else None
+            if isinstance(p, (ast.FunctionDef, ast.Lambda)):
+                return None
+            prev = p
+        return None
+    sup = [absorbed(fl) for fl in floats]
+    ok = bool(sup) and all(x is not None for x in sup)
+    rep.ob("C20.R1", sup[0] if ok else td, "text that is not a number stays text (ValueError of the coercion is absorbed without a store)", ok,
+           "" if ok else "a cell that is not a number raises ValueError out of the transform instead of staying text", key="C20.R1@suppress")
     rep.ob("C20.R1", floats[0], "thousands commas are removed before coercion", ".replace(',', '')" in U(floats[0]), "", key="C20.R1@commas")
     td = td_outer
 
@@ -105,10 +123,18 @@ def run(repo, rep, tier):
                 detail = f"{sorted(need - covered)} run outside the handler"
     rep.ob("C20.R2", main, "main reports conversion errors on stderr and exits with a non-zero status", ok, detail, key="C20.R2@main:handler")
 
+    # the csv reader object of _read_csv, whatever it is called
+    rc = repo.func("_csv2numbers.py", "Converter._read_csv")
+    rdefs = [n for n in body_walk(rc) if isinstance(n, ast.Assign) and len(n.targets) == 1 and isinstance(n.targets[0], ast.Name)
+             and isinstance(n.value, ast.Call) and U(n.value.func) == "csv.reader"]
+    if len(rdefs) != 1:
+        raise AnalysisError(f"Converter._read_csv: csv.reader(...) binding not found ({len(rdefs)} sites)")
+    reader = rdefs[0].targets[0].id
+
     def safe_site(node, func, kind):
         if kind == "subscript":
             return True  # header-keyed dict/list lookups are outside the claimed clause
-        if kind == "next" and U(node) == "next(csvreader)":
+        if kind == "next" and U(node) == f"next({reader})":
             return True  # the grid has at least one row (quantifier of the property)
         return False
 
@@ -135,9 +161,21 @@ def run(repo, rep, tier):
         rep.ob("C20.R2", f, f"Converter.{mname}: only RuntimeError can leave it (besides --date parsing)", not bad,
                "" if not bad else f"{bad[0][0]} from `{bad[0][1]}` at {bad[0][2]} is not a RuntimeError: main's handler does not catch it and the tool crashes with a traceback",
                key=f"C20.R2@escape:{mname}")
-    rc = repo.func("_csv2numbers.py", "Converter._read_csv")
     s = U(rc).replace(" ", "")
-    ok = "dialect=csv.excel" in s and "dialect.strict=True" in s and "csv.reader(csvfile,dialect=dialect)" in s and "open(self.input_filename,encoding=self.encoding)" in s
+    rcall = rdefs[0].value
+    # the file: the name bound by `with open(self.input_filename, encoding=self.encoding) as <f>`
+    fname = U(rcall.args[0]) if rcall.args else None
+    opened = any(isinstance(w, ast.With) and any(it.optional_vars is not None and U(it.optional_vars) == fname and
+                                                 U(it.context_expr).replace(" ", "") == "open(self.input_filename,encoding=self.encoding)" for it in w.items)
+                 and any(n is rdefs[0] for n in ast.walk(w)) for w in body_walk(rc))
+    # the dialect: csv.excel (directly or through a local) with .strict = True set before the reader is built
+    dkw = [kw.value for kw in rcall.keywords if kw.arg == "dialect"] + list(rcall.args[1:2])
+    dname = U(dkw[0]) if dkw else None
+    d_is_excel = dname == "csv.excel" or any(isinstance(n, ast.Assign) and len(n.targets) == 1 and U(n.targets[0]) == dname and U(n.value) == "csv.excel" for n in body_walk(rc))
+    d_single = sum(1 for n in body_walk(rc) if isinstance(n, ast.Name) and n.id == dname and isinstance(n.ctx, ast.Store)) <= 1
+    strict = any(isinstance(n, ast.Assign) and len(n.targets) == 1 and U(n.targets[0]) in (f"{dname}.strict", "csv.excel.strict") and try_const(n.value) is True
+                 and n.lineno < rdefs[0].lineno for n in body_walk(rc))
+    ok = opened and d_is_excel and d_single and strict
     rep.ob("C20.R2", rc, "CSV is read with the strict excel dialect in the requested encoding", ok, "", key="C20.R2@reader")
     ok = "exceptcsv.Errorase:" in s and "exceptFileNotFoundErrorase:" in s and s.count("raiseRuntimeError(msg)frome") == 2
     rep.ob("C20.R2", rc, "reader errors are translated to RuntimeError", ok, "", key="C20.R2@reader:translate")
@@ -145,7 +183,7 @@ def run(repo, rep, tier):
     # ---- R3 positional data is not keyed by content
     keyed = [c for c in body_walk(td) if isinstance(c, ast.Call) and call_name(c) == "dict" and c.args and isinstance(c.args[0], ast.Call) and call_name(c.args[0]) == "zip"
              and "self.header" in U(c.args[0])]
-    hdr_from_csv = "self.header = next(csvreader)" in U(rc)
+    hdr_from_csv = f"self.header = next({reader})" in U(rc)
     ok = not (keyed and hdr_from_csv)
     rep.ob("C20.R3", keyed[0] if keyed else td, "data rows are not stored in a mapping keyed by CSV header text", ok,
            "" if ok else "`dict(zip(self.header, row))` keys each row by the header cells: two columns with the same header text collapse into one (a,a,b / 1,2,3 reads back as 2,3,<empty>)",
